@@ -99,7 +99,13 @@ def rule_G2(ctx: Ctx) -> None:
             if fresh:
                 ctx.holds(f, slot, "mazes are mutated only in a fresh copy of the dataset", node=loop)
             elif name in IN_PLACE_EXCEPTION:
-                ctx.holds(f, {**slot, "exception": IN_PLACE_EXCEPTION[name]}, "mazes are mutated only in a fresh copy (tabulated exception)", node=loop)
+                # in-place by default, but under inplace=False the loop must run over the copy: the iterated name must be
+                # the result variable whose definitions are {the input (in-place branch), copy.deepcopy(input)}
+                defs = X.assignments_to(f.node, base.id) if isinstance(base, ast.Name) else []
+                via_copy = isinstance(base, ast.Name) and base.id != ds_param and any(X.is_fresh(d, f.node) for d in defs)
+                ctx.judge(f, via_copy, {**slot, "exception": IN_PLACE_EXCEPTION[name], "iterates_result_variable_with_copy_branch": via_copy},
+                          "mazes are mutated only in the dataset that is returned (the input itself only under inplace=True)",
+                          "with inplace=False the *input's* mazes are mutated and the returned copy keeps its per-maze metadata", node=loop)
             else:
                 ctx.violation(f, slot, "mazes are mutated only in a fresh copy of the dataset",
                               "the filter mutates maze objects that still belong to its input", node=loop)
@@ -221,7 +227,7 @@ def rule_G5(ctx: Ctx) -> None:
     # path_length: len(solution) >= min_length
     f = fl.get("path_length") or ctx.index.func(f"{NS}.path_length")
     mz, mn = f.params()[:2]
-    ok, slot = X.same_relation(single_return(f), f"len({mz}.solution) >= {mn}")
+    ok, slot = X.relation_in(single_return(f), [f"len({mz}.solution) >= {mn}"])
     ctx.judge(f, ok, slot, "keep iff len(solution) >= min_length", "predicate differs from the documented rule")
 
     # start_end_distance: L1(start,end) >= min_distance
@@ -242,7 +248,7 @@ def rule_G5(ctx: Ctx) -> None:
             if isinstance(dist, ast.Call) and dotted_of(dist.func) in ("np.linalg.norm", "numpy.linalg.norm"):
                 ok = False  # a norm, but not the L1 norm of start-end
                 slot["why"] = "norm is not the Manhattan (ord=1) distance of start_pos - end_pos"
-    ctx.judge(f, ok, slot, "keep iff L1(start_pos, end_pos) >= min_distance", "distance or comparison differs from the documented rule")
+    ctx.judge(f, bool(ok), slot, "keep iff L1(start_pos, end_pos) >= min_distance", "distance or comparison differs from the documented rule")
 
     # cut_percentile_shortest
     f = fl.get("cut_percentile_shortest") or ctx.index.func(f"{NS}.cut_percentile_shortest")
@@ -259,7 +265,7 @@ def rule_G5(ctx: Ctx) -> None:
             sides = [g.ifs[0].left, g.ifs[0].comparators[0]]
             plain = [x for x in sides if isinstance(x, ast.Name)]
             cut = plain[0].id if len(plain) == 1 else "?"
-        ok, slot = X.same_relation(g.ifs[0], f"len({v}.solution) > {cut}")
+        ok, slot = X.relation_in(g.ifs[0], [f"len({v}.solution) > {cut}"])
         it_ok = X.U(g.iter) in (dsn, f"{dsn}.mazes") and X.U(c.elt) == v
         cutdef = X.assignments_to(f.node, cut)
         cut_ok = len(cutdef) == 1 and isinstance(cutdef[0], ast.Call) and dotted_of(cutdef[0].func) == "int" and \
@@ -325,9 +331,9 @@ def rule_G5(ctx: Ctx) -> None:
                 ctx.unknown(f, {"threshold": thr, "tests": len(hit)}, "one threshold test per criterion")
                 continue
             b_name = inner[0].target.id
-            ok, slot = X.same_relation(hit[0].test, f"np.sum({a_name}.{fieldn} != {b_name}.{fieldn}) <= {thr}")
-            if ok is None:
-                ok, slot = X.same_relation(hit[0].test, f"np.sum({b_name}.{fieldn} != {a_name}.{fieldn}) <= {thr}")
+            a_, b_ = f"{a_name}.{fieldn}", f"{b_name}.{fieldn}"
+            ok, slot = X.relation_in(hit[0].test, [t.format(a=x, b=y, thr=thr) for x, y in ((a_, b_), (b_, a_)) for t in (
+                "np.sum({a} != {b}) <= {thr}", "({a} != {b}).sum() <= {thr}", "np.count_nonzero({a} != {b}) <= {thr}")])
             brk = any(isinstance(s, ast.Break) for s in hit[0].body)
             slot["breaks"] = brk
             ctx.judge(f, ok if ok is not True else True, slot, f"near-duplicate iff number of differing {fieldn} entries <= threshold", node=hit[0])
